@@ -334,6 +334,14 @@ func genWire(r *rng, o *out, do func(string) string) {
 		}
 		hf = append(hf, kv{"212", []byte(strconv.Itoa(n))}, kv{"213", data})
 		o.kind("wire.xml")
+	} else if r.chance(1, 8) {
+		// XMLDataLen that starts no length-delimited extraction: zero, negative, not a number — the message is an ordinary one
+		// (BodyLength is checked as for any other)
+		hf = append(hf, kv{"212", []byte(r.pick([]string{"0", "0", "-3", "x", "00"}))})
+		if r.chance(1, 2) {
+			hf = append(hf, kv{"213", []byte(r.pick([]string{"", "a"}))})
+		}
+		o.kind("wire.xml-no-extraction")
 	}
 	for i, n := 0, r.intn(9); i < n; i++ {
 		var t int
